@@ -22,7 +22,7 @@ ExcludeMenus == { <<>>, <<"b.txt">> }
 DepMenus == { <<>>, <<":u">>, <<"//q:x", ":u">> }
 OutMenus == { <<>>, <<"o">>, <<"dir::d", "o">> }
 Targets1 == [ name : {"t"}, command : {"run it"}, deps : DepMenus, inputs : InputMenus, excludes : ExcludeMenus, outputs : OutMenus,
-              nocache : BOOLEAN, fp : BOOLEAN, platforms : {"unset", "linux"}, timeout : {"", "5s"}, bin : BOOLEAN ]
+              nocache : BOOLEAN, fp : BOOLEAN, platforms : {"unset", "empty", "linux"}, timeout : {"", "5s"}, bin : BOOLEAN ]
 Packages == [ t : Targets1, defaultPlatforms : {"unset", "darwin"}, withAlias : BOOLEAN ]
 
 SeqToSet(s) == {s[i] : i \in DOMAIN s}
@@ -39,7 +39,9 @@ Expected(p) ==
     bin_output |-> IF p.t.bin THEN "file::bin" ELSE "",
     tags |-> IF p.t.nocache THEN {"no-cache"} ELSE {},
     fingerprint |-> IF p.t.fp THEN {<<"k", "v">>} ELSE {},
-    platforms |-> IF p.t.platforms = "linux" THEN {"linux/amd64"} ELSE IF p.defaultPlatforms = "darwin" THEN {"darwin/arm64"} ELSE {},
+    \* ("empty" = an explicitly empty list: the target specifies its own selectors -- none -- and the package default does not apply)
+    platforms |-> IF p.t.platforms = "linux" THEN {"linux/amd64"} ELSE IF p.t.platforms = "empty" THEN {}
+                  ELSE IF p.defaultPlatforms = "darwin" THEN {"darwin/arm64"} ELSE {},
     timeout_ms |-> IF p.t.timeout = "5s" THEN 5000 ELSE 0,
     alias |-> IF p.withAlias THEN <<"//p:al", "//p:t">> ELSE <<>> ]
 
@@ -72,7 +74,7 @@ Next == UNCHANGED <<kind, val>>
 Spec == Init /\ [][Next]_<<kind, val>>
 \* theorems of the reference
 ExcludeNeverAdds == kind = "package" => Resolved(val.t) \subseteq (UNION {IF IsGlob(val.t.inputs[i]) THEN GlobMatches(val.t.inputs[i]) ELSE {val.t.inputs[i]} : i \in DOMAIN val.t.inputs})
-PlatformRule == kind = "package" => (Expected(val).platforms = {} <=> (val.t.platforms = "unset" /\ val.defaultPlatforms = "unset"))
+PlatformRule == kind = "package" => (Expected(val).platforms = {} <=> (val.t.platforms = "empty" \/ (val.t.platforms = "unset" /\ val.defaultPlatforms = "unset")))
 NoMarkerNoTargets == (kind = "lines" /\ \A i \in DOMAIN val : val[i] # "marker") => ScanResult(val) = [err |-> FALSE, names |-> <<>>]
 
 Export == [ packages |-> SetToSeq({[pkg |-> p, expected |-> Expected(p)] : p \in Packages}),
